@@ -46,10 +46,12 @@ def check(ctx):
     ev = ctx.exec('newton', cases)
     ctx.validate('Trace_Newton', ev, cases, 'newton', nontrivial=nt, key=key)
     ctx.assumptions.append('generated functions are deterministic and pure; tol in [1e-12, 1e-4], delta in {1e-9..1e-6, 2^-26}, |x*| <= 4.3, limits 0..50')
-    ctx.notes.append('calibration (unchanged tree, 20 seeds at thorough size, 107 286 successful basin solves): worst steps to success 6 (limit from which success is required: NEED = 14 >= 2 x 6); worst distance 1.1e-4 units (guard 1 unit)')
+    ctx.notes.append('calibration (unchanged tree, 20 seeds at thorough size, 159 549 successful basin solves of which 52 632 on structured-zero systems and 40 934 with permuted equations): worst steps to success 6 (limit from which success is required: NEED = 14 >= 2 x 6); worst distance 2.5e-4 units (guard 1 unit)')
     return ctx.finish(
         rule='cases: (i) every TLC-enumerated protocol problem with oracle R in {never, 1, 2}; (ii) per variant: polynomials with separated real/complex roots (product form, degree 1..5), e^z - c, cos z - z, '
              'diagonally dominant nonlinear systems (sine / square nonlinearity) of dimension 1..6 with exact Jacobians, guesses throughout the provable basin, tol 1e-12..1e-4, limits 0..50; '
+             '(ii-b) systems of dimension 3..6 whose Jacobians have exact structural zeros in every arrangement (cyclic forward/backward, lower/upper triangular, arrow, chained 2-blocks, random sparse 1-2 off-diagonals per row) '
+             'with coupling at 0.8-0.95 of the dominance limit (gap still >= 1.05), all four system variants; a quarter to a half of the systems list their equations in a permuted order (same root, same basin; the dense solve must pivot past zero entries); '
              '(iii) root-free, non-differentiable, NaN-producing, constant functions, a double root and a divergent iteration. Three solves per case. An end event is non-trivial if the solve evaluated a closure or the limit is 0; '
              'distinct = distinct (bit patterns, verdict) tuples.',
         trusted=['recording closures and function families (harness/src/suites/newton.rs)', 'analytic roots / basin radii computed in newton.rs', 'TLC', 'Newton.tla'])
